@@ -6,6 +6,8 @@ mod fam_cipher;
 mod fam_codec;
 mod fam_edit;
 mod fam_frame;
+mod fam_history;
+mod fam_list;
 mod fam_round;
 mod fam_split;
 mod gen;
@@ -52,6 +54,8 @@ fn main() {
         "codec" => fam_codec::codec(&mut ctx),
         "entry" => fam_codec::entry(&mut ctx),
         "edit" => fam_edit::edit(&mut ctx),
+        "history" => fam_history::history(&mut ctx),
+        "list" => fam_list::list(&mut ctx),
         "roundtrip" => fam_round::roundtrip(&mut ctx),
         "split" => fam_split::split(&mut ctx),
         f => {
